@@ -78,3 +78,11 @@ pub fn mk_time(day: u32, sec: u32) -> chrono::DateTime<chrono::Utc> {
     let t = chrono::NaiveTime::from_num_seconds_from_midnight_opt(sec, 0).unwrap();
     chrono::DateTime::<chrono::Utc>::from_naive_utc_and_offset(chrono::NaiveDateTime::new(d, t), chrono::Utc)
 }
+
+/// Float remainder with the sign of the dividend (what Rust's `%` on f64 computes), written
+/// with operations CBMC models exactly.  Equal to IEEE fmod whenever x/y is exactly
+/// representable after truncation, in particular for integral x, y below 2^53.
+/// Needed because CBMC 6.11 mis-models the f64 `%` operator (measured: 359.0 % 360.0 == 0.0).
+pub fn frem(x: f64, y: f64) -> f64 {
+    x - y * (x / y).trunc()
+}
